@@ -686,9 +686,10 @@ pub fn gen_case(rng: &mut Rng, tier: &str, profile: &str, stats: &mut Stats) -> 
     let directed_c07b = c07_variant == 2 || c07_variant == 3; // incoming limit vs. promotion
     let directed_c07c = c07_variant == 4; // the only disconnected node disappears while a candidate waits
     let c16_variant = if profile == "C16" { rng.below(10) } else { 99 };
+    let directed_c08 = profile == "C08" && rng.chance(1, 8);
     let directed_c16b = c16_variant < 2;
     let directed_c16c = c16_variant == 2; // the candidate no longer passes the bucket filter when its timeout elapses
-    let regime = if directed_c07 || directed_c07b || directed_c07c || directed_c16b || directed_c16c { 0 } else if tier == "thorough" { rng.below(12) } else { rng.below(40) };
+    let regime = if directed_c07 || directed_c07b || directed_c07c || directed_c16b || directed_c16c || directed_c08 { 0 } else if tier == "thorough" { rng.below(12) } else { rng.below(40) };
     let (pending_ms, sleeps) = match regime {
         0 => (200u64, true),
         r if r % 2 == 1 => (0, false),
@@ -790,6 +791,29 @@ pub fn gen_case(rng: &mut Rng, tier: &str, profile: &str, stats: &mut Stats) -> 
         ops.push(format!("kentry {}", hx(&pk)));
         ops.push("kdump".into());
         ops.push("ktake".into());
+    }
+    if directed_c08 {
+        // directed prefix: a full bucket with a waiting candidate loses a member; once the candidate's
+        // timeout has elapsed the by-distance lookup itself lets it in - and must still return
+        // everything stored at the requested distances, up to the cap
+        stats.bump("gen.case.directed-bydist-promotes-pending");
+        let hb = hot[0];
+        let mut members: Vec<[u8; 32]> = Vec::new();
+        for j in 0..16u64 {
+            let k = key_at(&local, hb, rng);
+            members.push(k);
+            ops.push(format!("kins {} v{}:- {} o", hx(&k), 7_000_000 + 8 * j, if j == 0 { "d" } else { "c" }));
+        }
+        let pk = key_at(&local, hb, rng);
+        ops.push(format!("kins {} v{}:- c o", hx(&pk), 7_000_000 + 8 * 16));
+        if rng.chance(2, 3) {
+            ops.push(format!("krm {}", hx(&members[rng.range(1, 15) as usize])));
+        }
+        ops.push("ksleep 450".into());
+        let other = hot[hot.len() - 1] as u64 + 1;
+        let ds = if rng.chance(1, 2) { format!("{}", hb + 1) } else { format!("{},{}", other, hb + 1) };
+        ops.push(format!("kbydist {} {}", ds, *rng.pick(&[16u64, 16, 40, 5])));
+        ops.push("kdump".into());
     }
     if directed_c07b {
         // directed prefix: the bucket's connected-incoming count is one below the limit when a
@@ -973,11 +997,16 @@ pub fn gen_case(rng: &mut Rng, tier: &str, profile: &str, stats: &mut Stats) -> 
                 let n = rng.below(5);
                 let mut ds: Vec<String> = Vec::new();
                 for _ in 0..n {
-                    let d = match rng.below(6) {
+                    let d = match rng.below(8) {
                         0 => 0,
                         1 => 257,
                         2 => 256,
                         3 => rng.range(1, 9),
+                        // far outside 1..=256, but equal to an occupied distance when cut to 8 / 16 / 32 bits
+                        4 => {
+                            let base = hot[rng.below(hot.len() as u64) as usize] as u64 + 1;
+                            *rng.pick(&[base + 256, base + 65536, base + (1u64 << 32), u64::MAX, u64::MAX - 255 + base % 256])
+                        }
                         _ => hot[rng.below(hot.len() as u64) as usize] as u64 + 1,
                     };
                     if !ds.contains(&d.to_string()) || rng.chance(1, 10) {
